@@ -53,11 +53,11 @@ prop("C01", "proof", "Lean theorems: the greedy loop invariant (independent of t
      "trusted: Lean kernel, theorem statements, harness+extractor; byte comparison tricks modelled at byte level (tied by u-units)", GEN_RULE, "§8 C01")
 prop("C02", "proof", "Lean theorem on emitted sequences (offset within window and position, minimum length, Aux 0, LitLen sum) from the probe contract; oracle checks every sequence of every generated block",
      "Lean 4 proof of the probe contract + differential correspondence",
-     [S("p-general", 300, 6000, ["p.parse.matches", "p.match.offset=window"]), S("p-exhaustive", 5355, 42987, [])],
+     [S("p-general", 300, 6000, ["p.parse.matches", "p.match.offset=window"]), S("p-exhaustive", 5355, 42987, []), S("p-large", 2, 60, ["p.parse.matches"], hang="120s")],
      "as C01", GEN_RULE, "§8 C02")
 prop("C03", "proof", "Lean theorems on Parse accounting (n, ErrEmptyBuffer, NoTrailingLiterals) from finishBlock; oracle compares n with Block.Len and the remaining input",
      "Lean 4 proof + differential correspondence",
-     [S("p-general", 300, 6000, ["p.parse.ntl.truncated", "p.parse.literalonly", "p.parse.empty"]), S("p-exhaustive", 5355, 42987, [])],
+     [S("p-general", 300, 6000, ["p.parse.ntl.truncated", "p.parse.literalonly", "p.parse.empty"]), S("p-exhaustive", 5355, 42987, []), S("p-large", 2, 60, ["p.parse.matches"], hang="120s"), S("p-bigbuf", 8, 200, ["p.bigbuf"])],
      "as C01", GEN_RULE, "§8 C03")
 prop("C04", "proof", "refinement of the DecoderBuffer model to an append-only byte log (all growth functions) incl. the doubling copy; model tied by differential scripts that compare len, R, Off, BufferSize and cap after every operation",
      "Lean 4 refinement proof + differential correspondence",
@@ -66,7 +66,8 @@ prop("C04", "proof", "refinement of the DecoderBuffer model to an append-only by
      "trusted: as C01; Go runtime slice growth is a parameter of the theorems and transcribed (self-tested against append) for execution", GEN_RULE, "§8 C04")
 prop("C05", "proof", "rejection conditions and atomicity of WriteMatch/WriteBlock as Lean theorems over the full uint32 range; malformed-stream generator; caller's block compared before/after",
      "Lean 4 proof + differential correspondence with malformed streams",
-     [S("d-malformed", 300, 6000, ["d.malformed", "d.wblk.ok"]), S("d-buf", 100, 1000, []), S("d-exhaustive", 11311, 135727, [])],
+     [S("d-malformed", 300, 6000, ["d.malformed", "d.wblk.ok"]), S("d-buf", 100, 1000, []), S("d-exhaustive", 11311, 135727, []),
+      S("d-large", 2, 60, ["d.large", "d.large.malformed"], hang="60s")],
      "as C04", GEN_RULE, "§8 C05")
 prop("C06", "proof", "the Decoder retry loops are total Lean functions whose spin branch (hang marker) is proved unreachable; harness watchdog reports hangs of the real code",
      "Lean 4 termination proof (unreachable hang marker) + watchdog differential runs",
@@ -105,7 +106,7 @@ prop("C13", "proof", "Reset clears every search structure in the model (tied by 
      "schedules clause reduced to the absence of package-level mutable state (syntactic criteria of the extractor)", GEN_RULE, "§8 C13")
 prop("C14", "proof", "Parse(nil) accounting and drain theorem in Lean; generator with raised Parse(nil) weight; later blocks checked against a decoder that got the skipped bytes verbatim",
      "Lean 4 proof + differential correspondence",
-     [S("p-nil", 300, 5000, ["p.parsenil.data", "p.parse.matches"])],
+     [S("p-nil", 300, 5000, ["p.parsenil.data", "p.parse.matches"]), S("p-bigbuf", 8, 200, ["p.bigbuf"])],
      "as C01", GEN_RULE, "§8 C14")
 prop("C15", "proof", "refinement of ParserBuffer to (fed, Off) with the 7-byte margin invariant; probes at Off-1, Off, Off+len-1, Off+len, Off+len+1; readers with short reads and errors; Reset(data) with every capacity class",
      "Lean 4 refinement proof + differential correspondence",
